@@ -61,6 +61,7 @@ type Label struct {
 	Pay     string // none junk reject doc
 	Doc     string // query mutation sub subfail invalid   (Pay == "doc")
 	Variant int    // wire spelling
+	Big     bool   // query whose answer is ~100 KB (same label: a query)
 	// lEmit / lSrcEnd: Src is the creation index of the source the script means; Op is filled in
 	// when the label is performed: the operation number of that source (what the model's label
 	// names), or the label's own index when there is no such source
@@ -175,6 +176,9 @@ func (l Label) wire(n int) (data []byte, binary bool) {
 		s += `,"payload":{"reject":true}`
 	case "doc":
 		q, extra := docText(l.Doc, l.Variant, n)
+		if l.Big && l.Doc == "query" {
+			q, extra = fmt.Sprintf("{big(n:%d)}", n), nil
+		}
 		p := map[string]interface{}{"query": q}
 		for k, v := range extra {
 			p[k] = v
@@ -258,12 +262,31 @@ func parseServerFrame(proto string, p []byte) SFrame {
 	case m.Type == "complete":
 		return SFrame{Kind: "complete", ID: id}
 	case m.Type == dataWord:
-		var resp struct {
-			Data   map[string]*int   `json:"data"`
-			Errors []json.RawMessage `json:"errors"`
+		var resp0 struct {
+			Data   map[string]json.RawMessage `json:"data"`
+			Errors []json.RawMessage          `json:"errors"`
 		}
-		if err := json.Unmarshal(m.Payload, &resp); err != nil {
+		if err := json.Unmarshal(m.Payload, &resp0); err != nil {
 			return SFrame{Kind: "other", Raw: raw}
+		}
+		resp := struct {
+			Data   map[string]*int
+			Errors []json.RawMessage
+		}{Data: map[string]*int{}, Errors: resp0.Errors}
+		for k, v := range resp0.Data {
+			var n int
+			var str string
+			if json.Unmarshal(v, &n) == nil && string(v) != "null" {
+				n := n
+				resp.Data[k] = &n
+			} else if k == "big" && json.Unmarshal(v, &str) == nil {
+				if _, err := fmt.Sscanf(str, "%d:", &n); err == nil {
+					n := n
+					resp.Data["q"] = &n // a big answer is the result of a query
+				}
+			} else {
+				resp.Data[k] = nil
+			}
 		}
 		for _, k := range []string{"q", "m"} {
 			if v := resp.Data[k]; v != nil && len(resp.Errors) == 0 {
